@@ -695,6 +695,16 @@ def eval_generic(ctx: Ctx, c: dict):
         rd = dns.rdata.from_wire(rdclass, rdtype, wire, 0, len(wire), origin if c.get("wire_origin") else None)
     except Exception:
         ctx.count("gen.rejected-by-from_wire")
+        # the generic text of rdata that from_wire rejects must be rejected too, by the code and by the model's decoder
+        text = f"\\# {len(wire)} {wire.hex()}"
+        try:
+            r = dns.rdata.from_text(rdclass, rdtype, text)
+        except dns.exception.DNSException:
+            r = None
+        except Exception as e:
+            _fail(ctx, f"C05/from_text/foreign-exception/{tname}/{type(e).__name__}", f"from_text({tname}, {text!r}) raised {e!r}", rep)
+            return
+        model_corr_fromtext(ctx, c, tname, text, None, True, r)
         return
     worigin = origin if origin is not None else dns.name.root
     try:
@@ -1280,7 +1290,8 @@ MISC_ATOMS = ["0123456789abcdefghijklmnopqrstuv", "2t7b4g4vsa5smi47k61mv5bv1a22b
               "99999999999m", "nanm", "infm", "1e3m", "4435.61m", "0.07m", "90000000.00m", "(", ")", ";c", "TCP", "tcp", "smtp", "0x", "0xab", "-", "!1:1.2.3.4/8",
               "1:0.0.0.0/0", "3:ab/8", "2:::/0", "!2:1::/128", "2:1::/129", "1:1.2.3.4/33", "1:1.2.3.4/+8", "+1:1.2.3.4/8", "0x1:1.2.3.4/8", "1:1.2.3.4",
               "1.2.3.4/8", "!", "!!1:1.2.3.4/8", "1:1.2.3.4/8/9", "1:2:1.2.3.4/8", "2:1:2::3/64", "65536:ab/8", "-0:ab/8", '"1:1.2.3.4/8"', "1_0:1.2.3.4/8",
-              "01:1.2.3.4/08", "1:1.2.3.4/-0", "1:1.2.3.4/", ":1.2.3.4/8", "2:::ffff:1.2.3.4/96", "1:01.2.3.4/8", "!7:00/255", "3:AB/8", "3:abc/8", "3:/8", "0:ab/0", "3:ab/256", "3:ab00/8", "3:0g/8", "3:\\097b/8",
+              "01:1.2.3.4/08", "1:1.2.3.4/-0", "1:1.2.3.4/", ":1.2.3.4/8", "2:::ffff:1.2.3.4/96", "1:01.2.3.4/8", "12.5\\010", "\\01012.5", "12\\010.5", "12.5\\032", "12.5\\009", "12.5\\000", "12.5\\127", "12.5\\013", "-12.\\010", ".5\\010",
+              "12\\010", "!7:00/255", "3:AB/8", "3:abc/8", "3:/8", "0:ab/0", "3:ab/256", "3:ab00/8", "3:0g/8", "3:\\097b/8",
               "3:ababababababababababababababababababababababababababababababababababababababababababababababababababababababababababababababab/8", "3:abababababababababababababababababababababababababababababababababababababababababababababababababababababababababababababababab/8",
               "90.00000000000000710542735760100185871124267578125", "90.000000000000007105427357601001858711242675781251", "-90.00000000000000710542735760100185871124267578125", "-90.000000000000007105427357601001858711242675781251", "90.00000000000000710542735760100185871124267578124", "90.0", "+90.", "90.00000000000001", "-90.00000000000002", "91", "180.0000000000000142108547152020037174224853515625", "180.00000000000001421085471520200371742248535156251", "-180.0000000000000142108547152020037174224853515625", "-180.00000000000001421085471520200371742248535156251", "180.0000000000000142108547152020037174224853515624", "180.0", "+180.", "180.00000000000001", "-180.00000000000002", "181", ".5", "5.", ".", "+.", "-.5", "1.2.3", "1e5", "00090.000", "-0",
               "alpn=h2", 'alpn="h2,h3"', "port=53", "no-default-alpn", "key65280=abc", "mandatory=alpn", "20240101000000", "1700000000"]
